@@ -6,7 +6,9 @@ import re
 import vcore
 
 MODULE, CFG = "StmtWireTrace", "StmtWireTrace.cfg"
-T_ACTIONS = ["TReset", "TParse", "TParseError", "TWire", "TPlanWire", "TExprWire"]
+T_ACTIONS = ["TReset", "TParse", "TParseError", "TWire", "TPlanWire", "TExprWire", "TParseRef", "TParseBegin", "TParseEnd"]
+# the add-only hook the scripted overlap histories need (harness/cmd/vdrive/stmtwire_overlap.go)
+HOOK_FILE, HOOK_NAME = "sql/zz_verif.go", "VerifSetSQLParserFunc"
 
 
 def _mutate(ev, fn, pred=None):
@@ -39,6 +41,17 @@ def _has_nil(v, top=True):
     return False
 
 
+def _bump_limit(d):
+    d["r"]["limit"] = d["r"]["limit"] + 1
+
+
+def _hook_in_repo():
+    try:
+        return HOOK_NAME in open(os.path.join(vcore.REPO, HOOK_FILE)).read()
+    except OSError:
+        return False
+
+
 def _swap_bin(d):
     d["b"]["l"], d["b"]["r"] = d["b"]["r"], d["b"]["l"]
 
@@ -58,20 +71,33 @@ def run(ctx, replay):
     ctx.model_check("MCStmtWire", "MCStmtWire_thorough.cfg" if thorough else "MCStmtWire.cfg", coverage=thorough, timeout=1800)
     # the limit of the design, stated in the model: an interval that is not whole seconds does not survive
     ctx.model_check("MCStmtWire", "MCStmtWire_subsecond.cfg", expect="violation", timeout=600)
+    # overlapping parse calls: with a pooled lexer held until the call ends every call returns the statement of its own
+    # text; a lexer put back before its token stream has been read does not (the model is sensitive to it)
+    ctx.model_check("MCStmtWire", "MCStmtWire_calls.cfg", timeout=600)
+    ctx.model_check("MCStmtWire", "MCStmtWire_dev_earlyrelease.cfg", expect="violation", timeout=600)
 
     # ---- leg T: real parser, real wire, judged by the specification
     tr = os.path.join(ctx.scratch, "stmtwire.ndjson")
     trn = os.path.join(ctx.scratch, "stmtwire-nil.ndjson")
     nstmt, ntree, depth, nilmax = (30000, 30000, 3, 6) if thorough else (4000, 4000, 2, 3)
+    ntext, workers, iters = (24, 8, 40) if thorough else (12, 4, 30)
     summ, rc, _ = ctx.run_vdrive(["stmtwire", "--seed", ctx.seed, "--statements", nstmt, "--trees", ntree, "--depth", depth,
-                                  "--out", tr, "--nilout", trn, "--nilmax", nilmax], timeout=1800)
+                                  "--out", tr, "--nilout", trn, "--nilmax", nilmax,
+                                  "--texts", ntext, "--workers", workers, "--iters", iters], timeout=1800)
     for u in summ["unresolved"]:
         raise vcore.Unresolved("stmtwire driver: %s" % u)
     for s in summ["samples"][:4]:
         ctx.sample(s)
     ctx.extra["events"] = summ["events"]
-    for k in ("events_by_kind", "parsed", "rejected_by_parser", "statements_with_missing_child"):
+    for k in ("events_by_kind", "parsed", "rejected_by_parser", "statements_with_missing_child", "concurrent", "overlap_hook", "overlap_windows"):
         ctx.extra[k] = summ["extra"][k]
+    if not sum(c["overlapped"] for c in summ["extra"]["concurrent"]):
+        raise vcore.Unresolved("no two parse calls of the concurrent leg overlapped: vacuous")
+    if _hook_in_repo():
+        if not summ["extra"]["overlap_hook"] or not summ["extra"]["overlap_windows"]:
+            raise vcore.Unresolved("%s has %s but the driver ran no scripted overlap history (stmtwire_overlap.go missing from the harness?)" % (HOOK_FILE, HOOK_NAME))
+    else:
+        ctx.log("scripted overlap histories not run: hook %s (%s) not in %s; concurrent leg only" % (HOOK_NAME, HOOK_FILE, vcore.REPO))
     if summ["extra"]["parsed"] < nstmt // 2:
         raise vcore.Unresolved("the parser rejected most generated statements (%d of %d accepted): vacuous" % (summ["extra"]["parsed"], nstmt))
 
@@ -80,6 +106,12 @@ def run(ctx, replay):
             d = json.loads(lines[min(rel, len(lines)) - 1])
         except ValueError:
             return sig
+        if d.get("ev") in ("ParseRef", "ParseBegin", "ParseEnd"):
+            # which family of histories: concurrent (goroutines) or overlap (a call started inside another one)
+            try:
+                return "%s:%s" % (sig, json.loads(lines[0]).get("kind"))
+            except ValueError:
+                return sig
         if d.get("ev") in ("Wire", "PlanWire", "ExprWire") and _has_nil(d.get("a")):
             text = ""
             for ln in lines[:rel]:
@@ -93,11 +125,11 @@ def run(ctx, replay):
 
     vcore.validate_all(ctx, MODULE, CFG, tr, describe=describe, dfs=False, timeout=1800)
 
-    # binding self-tests: each corrupts a different real output
+    # binding self-tests: each corrupts a different real output (of an accepted trace: the first one of each kind)
     clean = os.path.join(ctx.scratch, "stmtwire-clean.ndjson")
     seen = set()
     with open(clean, "w") as f:
-        for t in vcore.split_traces(vcore.read_lines(tr)):
+        for t in vcore.split_traces(vcore.read_lines(ctx.accepted_path)):
             kind = json.loads(t[0]).get("kind")
             if kind not in seen:
                 seen.add(kind)
@@ -110,13 +142,14 @@ def run(ctx, replay):
                  lambda d: d["a"].get("k") == "call"), "the bytes carry another function type"),
         (_mutate("Parse", lambda d: d["a2"]["items"][0].__setitem__("alias", d["a2"]["items"][0]["alias"] + "x"),
                  lambda d: d["a"].get("items")), "the second parse yields another alias"),
+        (_mutate("ParseEnd", _bump_limit, lambda d: d["r"].get("k") == "query"), "a call that overlapped others returned another limit"),
         (_mutate("Wire", lambda d: d["b"].__setitem__("having", {"k": "nil"}),
                  lambda d: d["a"].get("having", {"k": "nil"}) != {"k": "nil"}), "the received statement lost its having clause"),
         (_mutate("PlanWire", lambda d: d["b"].__setitem__("ratio", d["b"]["ratio"] + 1)), "the planned statement arrives with another interval ratio"),
         (_mutate("Wire", lambda d: d["b"]["cond"].__setitem__("val", d["b"]["cond"]["val"] + " "),
                  lambda d: d["a"].get("cond", {}).get("k") == "eq"), "a received tag filter value has a trailing blank"),
     ]
-    for mut, what in (tests if thorough else tests[:4]):
+    for mut, what in (tests if thorough else tests[:5]):
         vcore.corrupt_selftest(ctx, MODULE, CFG, clean, mut, what)
 
     # statements the parser accepts although their tree has a missing child (one small trace each)
@@ -138,6 +171,7 @@ def run(ctx, replay):
     ctx.assumptions += [
         "trees are compared through the harness projection (kind + fields of every node; nil and empty slices both project to the empty list, a float64 to its shortest round-trip decimal string)",
         "parse determinism is judged modulo the clock: when the text gives no absolute time range at both ends the range is excluded from the comparison",
+        "overlapping parse calls: a seeded list of texts parsed by several goroutines at once (one P, two Ps with forced GC cycles, all Ps): which interleavings occur is up to the scheduler; the scripted form (a call started inside another call's window, every ordered pair of the list) needs the hook sql.VerifSetSQLParserFunc and runs only when /repo has it; a parse error is compared as `error`, not by its message",
         "statements come from a seeded generator over the query grammar (select / from / where / group by / fill / having / order by / limit, metadata statements), nesting bound 2 (quick) / 3 (thorough); expression trees are also built directly with every kind below every kind",
         "intervals are whole seconds (the grammar and the planner produce no other; the model shows that a sub-second interval would not survive)",
     ]
